@@ -22,7 +22,7 @@
 (***************************************************************************)
 EXTENDS Recover
 
-CONSTANTS MaxN, MaxLen, W, MaxBr, Mutant
+CONSTANTS MaxN, MaxLen, W, MaxBr, WithManual, Mutant
 
 VARIABLES lens, entry, kinds, manual
 vars == <<lens, entry, kinds, manual>>
@@ -54,7 +54,7 @@ Init == /\ lens \in UNION { Seqs(n, 1..MaxLen) : n \in 1..MaxN }
         /\ kinds = <<>> /\ manual = {}
 Next == /\ kinds = <<>>
         /\ kinds' \in KindVectors(Len(lens))
-        /\ manual' \in {{}} \cup { {<<h, t>>} : h \in { p \in 1..Len(lens) : kinds'[p].kind = "ind" }, t \in 1..Len(lens) }
+        /\ manual' \in {{}} \cup (IF WithManual THEN { {<<h, t>>} : h \in { p \in 1..Len(lens) : kinds'[p].kind = "ind" }, t \in 1..Len(lens) } ELSE {})
         /\ UNCHANGED <<lens, entry>>
 Spec == Init /\ [][Next]_vars
 
